@@ -50,6 +50,7 @@ def main():
         meta = {
             'id': sid,
             'property': prop,
+            'base_commit': d.get('base', 'see git log of /repo at the time of the evaluation'),
             'origin': 'written by an independent sub-agent that saw only the property text and a scratch worktree of /repo (nothing from /verif)',
             'needs_to_manifest': trigger_of(notes),
             'confirmed': {
